@@ -177,7 +177,11 @@ def impl_run(strategy, cfg, tc, file0, verdict, clock=(), exc_class=TestRaised, 
         tmp = os.path.join(work, "tmp")
         os.mkdir(tmp)
         Path(path).write_bytes(file0)
-        testcase = getattr(tcs, ATOMS[atom])()
+        atom_name = atom.split(":")[0]
+        testcase = getattr(tcs, ATOMS[atom_name])()
+        if ":" in atom:  # "symbol:<hex cut-before>:<hex cut-after>"
+            _, hb, ha = atom.split(":")
+            testcase.set_cut_chars(bytes.fromhex(hb), bytes.fromhex(ha))
         if load:
             testcase.load(path)
         else:
